@@ -167,8 +167,16 @@ Definition ventry_next (fixed : bool) (bs : N) (r : mrecv) : M (bytes * bytes * 
   dom x <- read_value_e fixed bs r; let '(c, r) := x in
   mret (a, b, c, r).
 
+(* state after msgReceiver.Read(data of n bytes) returned the invalid-length error: bufferLoad done,
+   trailer consumed, r.tl still 0 *)
+Definition mr_skip_trailer (n : N) (r : mrecv) : mrecv :=
+  let '(chunks, b, hit) := buffer_load (s_chunks (mr_s r)) (mr_b r) n in
+  mr_with r chunks (dropN 8 b) (mr_eof r || hit) (mr_tl r) (mr_sz r) false.
+
 (* execAllStreamReceiver.Next *)
-Inductive eaop := EKv (key : bytes) | EZAdd (raw : option bytes).
+(* EZAdd raw dropped: the body (None: ReadValue gave none) and the class of the error ReadValue
+   returned and the receiver dropped, if any *)
+Inductive eaop := EKv (key : bytes) | EZAdd (raw : option bytes) (dropped : option N).
 
 Fixpoint execall_next_loop (fixed : bool) (fuel : nat) (bs : N) (r : mrecv) : M (eaop * mrecv) :=
   match fuel with
@@ -182,8 +190,12 @@ Fixpoint execall_next_loop (fixed : bool) (fuel : nat) (bs : N) (r : mrecv) : M 
       (* zaddm, err := ReadValue(...); err = proto.Unmarshal(zaddm, zr): the first error is dropped *)
       let m := read_value fixed bs r in
       match fst m with
-      | Ok (raw, r') => (Ok (EZAdd raw, r'), snd m)
-      | Err _ => (Ok (EZAdd None, r), snd m)
+      | Ok (raw, r') => (Ok (EZAdd raw None, r'), snd m)
+      | Err e =>
+          (* the dropped error leaves the receiver where the failed ReadValue left it. The length check
+             fails in the first Read of a value, after the buffer was loaded and the 8 trailer bytes
+             were taken from it; a transport error repeats itself whatever the state *)
+          (Ok (EZAdd None (Some e), if e =? ESInvalidLength then mr_skip_trailer bs r else r), snd m)
       | Panic => (Panic, snd m)
       end
     else if t0 =? 4 then merr ESNotImplemented
